@@ -33,6 +33,12 @@ func (fu *fetchUnit) cycle(app risc.Application, ctx *risc.Context, outBus *comp
 		return
 	}
 
+	if fu.pc/4 >= int32(len(app.Instructions)) {
+		// Branch to the end of the program: nothing left to fetch
+		fu.complete = true
+		return
+	}
+
 	if !fu.processing {
 		fu.processing = true
 		if _, exists := fu.mmu.getFromL1I([]int32{fu.pc}); exists {
